@@ -16,7 +16,7 @@ func init() {
 		ID: "C38", Level: "proof",
 		Technique: "closed structural argument over SSA: program-wide write-set of the counter, constant stride/start parity, single atomic read-modify-write, role provenance through every transport",
 		Note:      "Proof by induction over allocations, every premise decided on the whole program's SSA: the counter is written only by the constructor (start s, odd for the dialer, even and non-zero otherwise) and by one atomic Add(k) with k a non-zero even constant, the allocator is never copied and belongs to exactly one connection object for life, Next returns the Add result minus 0 or k, the role handed to the constructor is the transport connection's IsDialer(), which every transport sets true exactly on its dial path and false on its accept path. Trusted: Go type checker, go/ssa lowering, linearizability of sync/atomic.Uint64.Add. Not covered: wrap-around after 2^63 allocations.",
-		Explain: "Proves that StreamIDAllocator hands out pairwise distinct, non-zero identifiers of the parity of its role: the counter field's program-wide access set is {constructor Store(start), Next's Add(k), Loads}; k is a non-zero even constant and start is odd on the isDialer edge and even non-zero on the other; Next performs exactly one atomic read-modify-write and returns its result minus 0 or k; the allocator is never copied by value; every allocator is created for, stored once into, and used only through one connection object, with the role taken from PeerConn.IsDialer(); and every PeerConn implementation's role flag is constant true exactly where a Transport.Dial constructs it and false where a Listener constructs it. " +
+		Explain: "Starting from peer.Connection.NextStreamID (where the agent obtains every identifier) the check follows the returned value down to the single 64-bit atomic counter it comes from; if it does not come, unchanged and on every path, from one atomic read-modify-write on one counter owned by the connection, that is reported as the violation. It then proves that the allocator hands out pairwise distinct, non-zero identifiers of the parity of its role: the counter field's program-wide access set is {constructor Store(start), Next's Add(k), Loads}; k is a non-zero even constant and start is odd on the isDialer edge and even non-zero on the other; Next performs exactly one atomic read-modify-write and returns its result minus 0 or k; the allocator is never copied by value; every allocator is created for, stored once into, and used only through one connection object, with the role taken from PeerConn.IsDialer(); and every PeerConn implementation's role flag is constant true exactly where a Transport.Dial constructs it and false where a Listener constructs it. " +
 			"Not covered: identifier wrap-around after 2^63 allocations; that every frame's stream id was obtained from NextStreamID.",
 		Run: runC38,
 		SelfTests: []SelfTest{
@@ -59,6 +59,34 @@ func init() {
 			{Name: "allocator replaced on state change", ExpectRule: "C38.R5", Edits: []Edit{
 				{File: "internal/peer/connection.go", Old: "\tc.state.Store(int32(state))\n}", New: "\tc.state.Store(int32(state))\n\tc.streamAlloc = transport.NewStreamIDAllocator(c.conn.IsDialer())\n}"},
 			}},
+			{Name: "lazily seeded counter in the allocator (check-then-Store races with the first allocations)", ExpectRule: "C38.R1", ExpectKey: "Store", Edits: []Edit{
+				{File: "internal/transport/transport.go", Old: "return a.next.Add(2) - 2", New: "if a.next.Load() == 0 {\n\t\ta.next.Store(1)\n\t}\n\treturn a.next.Add(2) - 2"},
+			}},
+			{Name: "NextStreamID switches to its own lazily seeded counter instead of the allocator", ExpectRule: "C38.R1", ExpectKey: "NextStreamID Store", Edits: []Edit{
+				{File: "internal/peer/connection.go", Old: "\treturn c.streamAlloc.Next()", New: "\tif c.nextStreamID.Load() == 0 {\n\t\tc.nextStreamID.Store(1)\n\t}\n\treturn c.nextStreamID.Add(2) - 2"},
+			}},
+			{Name: "NextStreamID uses a never-initialised counter of its own", ExpectRule: "C38.R2", ExpectKey: "start value", Edits: []Edit{
+				{File: "internal/peer/connection.go", Old: "\treturn c.streamAlloc.Next()", New: "\treturn c.nextStreamID.Add(2)"},
+			}},
+			{Name: "32-bit counter (wraps on a long-lived connection)", ExpectRule: "C38.R1", ExpectKey: "counter width", Edits: []Edit{
+				{File: "internal/transport/transport.go", Old: "\tnext     atomic.Uint64\n", New: "\tnext     atomic.Uint32\n"},
+				{File: "internal/transport/transport.go", Old: "a.next.Store(start)", New: "a.next.Store(uint32(start))"},
+				{File: "internal/transport/transport.go", Old: "return a.next.Add(2) - 2", New: "return uint64(a.next.Add(2) - 2)"},
+			}},
+			{Name: "32-bit sequence number scaled into the identifier", ExpectRule: "C38.R1", ExpectKey: "counter width", Edits: []Edit{
+				{File: "internal/transport/transport.go", Old: "\tnext     atomic.Uint64\n", New: "\tnext     atomic.Uint32\n\tfirst    uint64\n"},
+				{File: "internal/transport/transport.go", Old: "\ta.next.Store(start)\n", New: "\ta.first = start\n"},
+				{File: "internal/transport/transport.go", Old: "return a.next.Add(2) - 2", New: "return a.first + 2*uint64(a.next.Add(1)-1)"},
+			}},
+			{Name: "identifier taken from the clock instead of the allocator", ExpectRule: "C38.R5", ExpectKey: "identifier source", Edits: []Edit{
+				{File: "internal/peer/connection.go", Old: "\treturn c.streamAlloc.Next()", New: "\treturn uint64(time.Now().UnixNano()) | 1"},
+			}},
+			{Name: "fast path returns a constant identifier when not connected", ExpectRule: "C38.R5", ExpectKey: "identifier source", Edits: []Edit{
+				{File: "internal/peer/connection.go", Old: "\treturn c.streamAlloc.Next()", New: "\tif c.State() != StateConnected {\n\t\treturn 0\n\t}\n\treturn c.streamAlloc.Next()"},
+			}},
+			{Name: "allocator result folded into 32 bits on the way out", ExpectRule: "C38.R5", ExpectKey: "identifier source", Edits: []Edit{
+				{File: "internal/peer/connection.go", Old: "\treturn c.streamAlloc.Next()", New: "\treturn c.streamAlloc.Next() & 0xffffffff"},
+			}},
 			{Name: "rewrite: result through locals, switch on the role, role in a local, zero-value accept flag", Edits: []Edit{
 				{File: "internal/transport/transport.go", Old: "return a.next.Add(2) - 2", New: "const stride = 2\n\tafter := a.next.Add(stride)\n\tid := after - stride\n\treturn id"},
 				{File: "internal/transport/transport.go", Old: "\tstart := uint64(2) // even for listener\n\tif isDialer {\n\t\tstart = 1 // odd for dialer\n\t}", New: "\tvar start uint64\n\tswitch isDialer {\n\tcase true:\n\t\tstart = 1\n\tdefault:\n\t\tstart = 2\n\t}"},
@@ -77,13 +105,16 @@ func init() {
 type c38Ctx struct {
 	p        *kit.Program
 	r        *kit.Report
-	alloc    *types.Named // transport.StreamIDAllocator
-	counter  *types.Var   // its atomic counter field
-	ctor     *ssa.Function
-	ctorSite *ssa.Call // the Store(start) call
+	entry    *ssa.Function // peer.Connection.NextStreamID: where the agent obtains identifiers
+	chain    []*types.Var  // owner fields followed from the connection to the allocator (may be empty)
+	alloc    *types.Named  // the type that holds the counter
+	counter  *types.Var    // its atomic counter field
+	ctors    []*ssa.Function
+	ctorSite map[*ssa.Function]*ssa.Call // the Store(start) call per constructor
 	next     *ssa.Function
 	addCall  *ssa.Call
 	stride   int64
+	peerConn *types.Interface
 }
 
 func c38IsAtomicUint(t types.Type) bool {
@@ -99,36 +130,177 @@ func c38IsAtomicUint(t types.Type) bool {
 }
 
 func runC38(p *kit.Program, r *kit.Report) {
-	r.Rule("C38.R1", "O1: the counter field of StreamIDAllocator is accessed program-wide only by the constructor's Store(start), by the Add in the allocating method and by Loads; the allocator is never copied by value")
+	r.Rule("C38.R1", "O1: the atomic counter that Connection.NextStreamID draws from is 64 bits wide and is accessed program-wide only by a constructor's Store(start) on a freshly allocated object, by the Add in the allocating method and by Loads; the object holding it is never copied by value")
 	r.Rule("C38.R2", "O2: the Add stride is a non-zero even constant; the start value is an odd constant on the isDialer edge and a non-zero even constant on the other edge")
 	r.Rule("C38.R3", "O3: the allocating method performs exactly one atomic read-modify-write on the counter and returns that operation's result minus 0 or minus the stride")
 	r.Rule("C38.R4", "O4: every allocator is constructed with PeerConn.IsDialer() of the wrapped transport connection; every PeerConn implementation's role flag is constant, true exactly where a Transport.Dial path constructs it and false where a Listener path constructs it, and never changes afterwards")
-	r.Rule("C38.R5", "O5: every allocator is created for exactly one owner object (stored once into a field of a freshly allocated struct, never replaced) and identifiers are drawn only through that field")
-	cx := &c38Ctx{p: p, r: r}
-	cx.alloc = p.NamedType("internal/transport", "StreamIDAllocator")
-	if !r.Require(cx.alloc != nil, "anchor-unresolved: type internal/transport.StreamIDAllocator") {
+	r.Rule("C38.R5", "O5: Connection.NextStreamID returns, unchanged and on every path, the result of one allocating method on one allocator owned by the connection (or of one atomic counter of the connection itself); every allocator is created for exactly one owner object (stored once into a field of a freshly allocated struct, never replaced) and identifiers are drawn only through that field")
+	cx := &c38Ctx{p: p, r: r, ctorSite: map[*ssa.Function]*ssa.Call{}}
+	cx.peerConn = c38Iface(p.NamedType("internal/transport", "PeerConn"))
+	cx.entry = p.Func("internal/peer", "Connection", "NextStreamID")
+	if !r.Require(cx.entry != nil && cx.entry.Blocks != nil && len(cx.entry.Params) >= 1, "anchor-unresolved: method (*peer.Connection).NextStreamID (the agent's source of stream identifiers)") {
 		return
 	}
-	for _, f := range kit.StructFields(cx.alloc) {
-		if c38IsAtomicUint(f.Type()) {
-			if cx.counter != nil {
-				r.Floor("anchor-unresolved: StreamIDAllocator has more than one atomic integer field (%s, %s)", cx.counter.Name(), f.Name())
-				return
-			}
-			cx.counter = f
-		}
-	}
-	if !r.Require(cx.counter != nil, "anchor-unresolved: StreamIDAllocator has no sync/atomic integer field") {
-		return
+	if !cx.traceSource() {
+		return // the violation says what replaced the allocator
 	}
 	cx.accessSet()
-	if len(r.Floors) > 0 || cx.next == nil || cx.ctor == nil {
+	if len(r.Floors) > 0 {
 		return
 	}
 	cx.strideAndStart()
 	cx.nextShape()
 	cx.roles()
 	cx.ownership()
+}
+
+// ---------- where identifiers come from
+
+type c38Src struct {
+	counter  *types.Var    // atomic field of the receiver operated on
+	delegate *ssa.Function // allocator method called on an owner field of the receiver
+	owner    *types.Var
+	call     *ssa.Call
+	foreign  string
+}
+
+// sourcesOf lists what the values returned by fn are computed from: atomic operations on
+// fields of the receiver, calls of repository methods on fields of the receiver, other calls.
+func (cx *c38Ctx) sourcesOf(fn *ssa.Function) (srcs []c38Src, consts []string) {
+	recv := ssa.Value(fn.Params[0])
+	seen := map[ssa.Value]bool{}
+	for _, ret := range kit.Returns(fn) {
+		if ret.Block() == fn.Recover || len(ret.Results) == 0 {
+			continue
+		}
+		for _, l := range kit.PhiLeaves(kit.ReturnResult(ret, 0)) {
+			if c, ok := l.(*ssa.Const); ok {
+				consts = append(consts, c.String()+" at "+cx.p.Pos(ret.Pos()))
+				continue
+			}
+			for _, src := range kit.Slice(l, kit.SliceOpts{Prog: cx.p}) {
+				if src.Kind != kit.SrcCall || src.Call == nil {
+					continue
+				}
+				call, ok := src.Call.(*ssa.Call)
+				if !ok || seen[call] {
+					continue
+				}
+				seen[call] = true
+				cal := kit.CalleeOf(call)
+				rv := kit.Receiver(call)
+				if cal.Pkg == "sync/atomic" && rv != nil {
+					if fa, ok := rv.(*ssa.FieldAddr); ok && fa.X == recv {
+						srcs = append(srcs, c38Src{counter: kit.FieldOfAddr(fa), call: call})
+						continue
+					}
+				}
+				if cal.Static != nil && cal.Static.Blocks != nil && kit.IsRepoPkg(kit.FuncPkgPath(cal.Static)) && rv != nil && cal.Static.Signature.Recv() != nil {
+					if f, base := kit.LoadedField(rv); f != nil && base == recv {
+						srcs = append(srcs, c38Src{delegate: cal.Static, owner: f, call: call})
+						continue
+					}
+					if fa, ok := rv.(*ssa.FieldAddr); ok && fa.X == recv {
+						srcs = append(srcs, c38Src{delegate: cal.Static, owner: kit.FieldOfAddr(fa), call: call})
+						continue
+					}
+				}
+				if cal.Built == "" {
+					srcs = append(srcs, c38Src{foreign: cal.String(), call: call})
+				}
+			}
+		}
+	}
+	return
+}
+
+// traceSource follows Connection.NextStreamID down to the atomic counter its result comes from.
+// When the chain does not end in one atomic counter of one object owned by the connection, that
+// is the violation: the mechanism the property relies on has been replaced.
+func (cx *c38Ctx) traceSource() bool {
+	p, r := cx.p, cx.r
+	fn := cx.entry
+	key := kit.FuncName(cx.entry) + " identifier source"
+	desc := kit.FuncName(fn)
+	for depth := 0; depth < 5; depth++ {
+		if len(fn.Params) == 0 || fn.Signature.Recv() == nil {
+			r.Violation("C38.R5", key, p.Pos(fn.Pos()), "%s obtains identifiers from %s, which is not a method of an allocator object owned by the connection: uniqueness per connection does not follow", kit.FuncName(cx.entry), kit.FuncName(fn))
+			return false
+		}
+		srcs, consts := cx.sourcesOf(fn)
+		if len(consts) > 0 {
+			r.Violation("C38.R5", key, p.Pos(fn.Pos()), "%s can return the constant %s instead of a freshly allocated identifier (fast path / fallback): two calls return the same, possibly zero, identifier", kit.FuncName(fn), consts[0])
+			return false
+		}
+		counters := map[*types.Var]bool{}
+		var delegs []c38Src
+		var foreign []string
+		for _, s := range srcs {
+			switch {
+			case s.counter != nil:
+				counters[s.counter] = true
+			case s.delegate != nil:
+				delegs = append(delegs, s)
+			default:
+				foreign = append(foreign, s.foreign)
+			}
+		}
+		switch {
+		case len(counters) == 1 && len(delegs) == 0:
+			for k := range counters {
+				cx.counter = k
+			}
+			t := fn.Signature.Recv().Type()
+			if ptr, ok := t.Underlying().(*types.Pointer); ok {
+				t = ptr.Elem()
+			}
+			cx.alloc, _ = types.Unalias(t).(*types.Named)
+			cx.next = fn
+			if cx.alloc == nil {
+				r.Floor("anchor-unresolved: receiver type of %s", kit.FuncName(fn))
+				return false
+			}
+			r.OK("C38.R5", key, p.Pos(cx.entry.Pos()), "identifiers come from %s -> atomic counter %s.%s", desc, cx.alloc.Obj().Name(), cx.counter.Name())
+			if len(foreign) > 0 {
+				r.Violation("C38.R3", kit.FuncName(fn)+" identifier mixes other sources", p.Pos(fn.Pos()), "the identifier returned by %s is also computed from %v, not only from the atomic counter: distinct counter values no longer imply distinct identifiers", kit.FuncName(fn), foreign)
+			}
+			return true
+		case len(counters) == 0 && len(delegs) == 1 && len(foreign) == 0:
+			d := delegs[0]
+			// the delegating level must hand the allocator's result on unchanged
+			for _, ret := range kit.Returns(fn) {
+				if ret.Block() == fn.Recover || len(ret.Results) == 0 {
+					continue
+				}
+				for _, l := range kit.PhiLeaves(kit.ReturnResult(ret, 0)) {
+					if l != ssa.Value(d.call) {
+						r.Violation("C38.R5", key, p.Pos(ret.Pos()), "%s does not return the result of %s unchanged: identifiers that are distinct in the allocator can coincide, change parity or become zero afterwards", kit.FuncName(fn), kit.FuncName(d.delegate))
+						return false
+					}
+				}
+			}
+			cx.chain = append(cx.chain, d.owner)
+			desc += " -> " + d.owner.Name() + "." + d.delegate.Name()
+			fn = d.delegate
+		default:
+			var what []string
+			for k := range counters {
+				what = append(what, "atomic field "+k.Name())
+			}
+			for _, d := range delegs {
+				what = append(what, kit.FuncName(d.delegate)+" on field "+d.owner.Name())
+			}
+			what = append(what, foreign...)
+			sort.Strings(what)
+			if len(what) == 0 {
+				what = []string{"no counter at all"}
+			}
+			r.Violation("C38.R5", key, p.Pos(fn.Pos()), "the identifiers returned by %s do not come from one atomic read-modify-write on one counter owned by the connection but from %v: the uniqueness/parity argument (single counter, constant even stride, role-dependent start) does not apply and identifiers can repeat", kit.FuncName(fn), what)
+			return false
+		}
+	}
+	r.Violation("C38.R5", key, p.Pos(cx.entry.Pos()), "the identifier source of %s is delegated through more than 5 levels without reaching an atomic counter", kit.FuncName(cx.entry))
+	return false
 }
 
 // ---------- O1
@@ -189,11 +361,13 @@ func (cx *c38Ctx) accessSet() {
 			r.Decide(fresh, "C38.R1", key, pos,
 				"Store initialises a freshly allocated allocator (constructor)",
 				"the counter of an existing allocator is overwritten by Store: identifiers already handed out are handed out again")
-			if fresh && cx.ctor == nil {
-				cx.ctor = s.fn
-				cx.ctorSite, _ = s.call.(*ssa.Call)
-			} else if fresh && cx.ctor != nil {
-				r.Floor("anchor-unresolved: more than one constructor stores the counter (%s, %s)", kit.FuncName(cx.ctor), fname)
+			if call, isCall := s.call.(*ssa.Call); fresh && isCall {
+				if _, dup := cx.ctorSite[s.fn]; dup {
+					r.Violation("C38.R1", key+" second initialisation", pos, "the constructor %s stores the counter twice: the start value in force is not a single role-selected constant", fname)
+				} else {
+					cx.ctors = append(cx.ctors, s.fn)
+					cx.ctorSite[s.fn] = call
+				}
 			}
 		case "Add":
 			rmws = append(rmws, s)
@@ -204,10 +378,9 @@ func (cx *c38Ctx) accessSet() {
 				"Add on the receiver's counter inside a method of the allocator",
 				"the counter is advanced outside the allocator's own allocating method: the stride/parity argument does not cover this write")
 			if onRecv {
-				if cx.next != nil && cx.next != s.fn {
+				if cx.next != s.fn {
 					r.Violation("C38.R1", key+" second allocating method", pos, "a second method (%s besides %s) advances the counter: its stride and result are not the verified ones", fname, kit.FuncName(cx.next))
-				} else if cx.next == nil {
-					cx.next = s.fn
+				} else if cx.addCall == nil {
 					cx.addCall, _ = s.call.(*ssa.Call)
 				}
 			}
@@ -215,18 +388,20 @@ func (cx *c38Ctx) accessSet() {
 			r.Violation("C38.R1", key, pos, "the counter is modified by %s, which is neither the constructor's Store nor the allocating Add: the value sequence is no longer start + n*stride", s.method)
 		}
 	}
-	r.Require(len(stores) >= 1 && cx.ctor != nil, "anchor-unresolved: no constructor initialises the counter of a fresh StreamIDAllocator with Store")
-	if len(rmws) == 0 {
-		// still resolve the allocating method so that R3 can say what is wrong
-		for _, m := range p.Methods("internal/transport", "StreamIDAllocator") {
-			res := m.Signature.Results()
-			if res.Len() == 1 && len(m.Params) == 1 {
-				if b, ok := res.At(0).Type().Underlying().(*types.Basic); ok && b.Kind() == types.Uint64 {
-					cx.next = m
-				}
-			}
-		}
-		r.Require(cx.next != nil, "anchor-unresolved: no method of StreamIDAllocator advances the counter or returns a uint64")
+	_ = stores
+	_ = rmws
+	tname := cx.alloc.Obj().Name() + "." + cx.counter.Name()
+	// width: a counter narrower than 64 bits wraps within the life of a connection
+	wide := false
+	if n, ok := types.Unalias(cx.counter.Type()).(*types.Named); ok {
+		wide = n.Obj().Name() == "Uint64" || n.Obj().Name() == "Int64"
+	}
+	r.Decide(wide, "C38.R1", tname+" counter width", p.Pos(cx.counter.Pos()),
+		"the counter is a 64-bit atomic",
+		fmt.Sprintf("the counter is a %s, not a 64-bit atomic: after 2^32 (or fewer) allocations on one long-lived connection it wraps and hands out identifiers that are still in use", cx.counter.Type()))
+	if len(cx.ctors) == 0 {
+		r.Violation("C38.R2", tname+" start value", p.Pos(cx.counter.Pos()),
+			"no constructor gives the counter its role-dependent start value while the object is still private (Store on a freshly allocated object): the counter starts at its zero value for both roles or is seeded later, racing with concurrent allocations — the non-zero/parity/uniqueness induction has no base")
 	}
 
 	// never copied by value: no SSA value of the struct type itself anywhere
@@ -245,11 +420,11 @@ func (cx *c38Ctx) accessSet() {
 			if c38SameNamedValue(v.Type(), cx.alloc) {
 				nCopy++
 				r.Violation("C38.R1", fmt.Sprintf("%s allocator copied by value #%d", kit.FuncName(fn), nCopy), p.Pos(v.Pos()),
-					"a StreamIDAllocator is held or passed by value (%s): the copy's counter evolves independently and repeats identifiers", v.Name())
+					"a %s (the object holding the identifier counter) is held or passed by value (%s): the copy's counter evolves independently and repeats identifiers", cx.alloc.Obj().Name(), v.Name())
 			}
 		}
 	}
-	r.OK("C38.R1", "allocator never held by value", p.Pos(cx.alloc.Obj().Pos()), "no SSA value of type StreamIDAllocator (non-pointer) in %d functions; %d value copies", len(p.RepoFuncs()), nCopy)
+	r.OK("C38.R1", "allocator never held by value", p.Pos(cx.alloc.Obj().Pos()), "no SSA value of type %s (non-pointer) in %d functions; %d value copies", cx.alloc.Obj().Name(), len(p.RepoFuncs()), nCopy)
 }
 
 func c38SameNamed(t types.Type, n *types.Named) bool {
@@ -276,32 +451,62 @@ func (cx *c38Ctx) strideAndStart() {
 			fmt.Sprintf("stride is the constant %d (non-zero, even)", k),
 			fmt.Sprintf("the stride handed to Add is not a non-zero even constant (const=%v value=%d): consecutive identifiers change parity and collide with the other end's, or repeat", isConst, k))
 	}
-	cname := kit.FuncName(cx.ctor)
-	// role parameter of the constructor
+	for _, ctor := range cx.ctors {
+		cx.startOf(ctor)
+	}
+}
+
+// isDialerOf: v is PeerConn.IsDialer() of some transport connection value.
+func (cx *c38Ctx) isDialerOf(v ssa.Value) (ssa.Value, bool) {
+	c, ok := v.(*ssa.Call)
+	if !ok || !c.Call.IsInvoke() || c.Call.Method.Name() != "IsDialer" || cx.peerConn == nil {
+		return nil, false
+	}
+	it, ok := c.Call.Value.Type().Underlying().(*types.Interface)
+	if !ok || !types.Identical(it, cx.peerConn) {
+		return nil, false
+	}
+	return c.Call.Value, true
+}
+
+// roleParam: the constructor's bool parameter, if any.
+func c38RoleParam(ctor *ssa.Function) ssa.Value {
 	var role ssa.Value
-	for _, prm := range cx.ctor.Params {
+	for _, prm := range ctor.Params {
 		if b, ok := prm.Type().Underlying().(*types.Basic); ok && b.Kind() == types.Bool {
 			role = prm
 		}
 	}
-	if !r.Require(role != nil && cx.ctorSite != nil, "anchor-unresolved: constructor %s has no bool role parameter", cname) {
-		return
+	return role
+}
+
+func (cx *c38Ctx) startOf(ctor *ssa.Function) {
+	p, r := cx.p, cx.r
+	cname := kit.FuncName(ctor)
+	site := cx.ctorSite[ctor]
+	role := c38RoleParam(ctor)
+	isRole := func(v ssa.Value) bool {
+		if role != nil && v == role {
+			return true
+		}
+		_, ok := cx.isDialerOf(v)
+		return ok
 	}
-	leaves := kit.GuardedLeaves(kit.Arg(cx.ctorSite, 0), cx.ctorSite)
+	leaves := kit.GuardedLeaves(kit.Arg(site, 0), site)
 	r.Count("start_value_leaves", len(leaves))
 	sawDial, sawAccept := false, false
 	for i, l := range leaves {
 		key := fmt.Sprintf("%s start value #%d", cname, i+1)
-		pos := p.Pos(cx.ctorSite.Pos())
+		pos := p.Pos(site.Pos())
 		c, isConst := kit.ConstInt(l.V)
 		if !isConst {
 			r.Violation("C38.R2", key, pos, "the start value is not a constant on this edge: its parity per role cannot be established, the two ends can allocate the same identifier")
 			continue
 		}
-		pol, known := c38RolePolarity(l.Guards, role)
+		pol, known := c38RolePolarity(l.Guards, isRole)
 		switch {
 		case !known:
-			r.Violation("C38.R2", key, pos, "the start constant %d is not selected by the role parameter: both roles can start with the same parity and allocate the same identifiers", c)
+			r.Violation("C38.R2", key, pos, "the start constant %d is not selected by the role (the constructor's bool parameter or PeerConn.IsDialer()): both roles can start with the same parity and allocate the same identifiers", c)
 		case pol:
 			sawDial = true
 			r.Decide(c > 0 && c%2 == 1, "C38.R2", key, pos, fmt.Sprintf("dialer start %d is odd", c),
@@ -312,13 +517,13 @@ func (cx *c38Ctx) strideAndStart() {
 				fmt.Sprintf("the accepting side's start value %d is not a non-zero even number: identifier 0 is handed out or both ends allocate odd identifiers", c))
 		}
 	}
-	r.Decide(sawDial && sawAccept, "C38.R2", cname+" start per role", p.Pos(cx.ctorSite.Pos()),
-		"a start constant is selected on each edge of the role parameter",
+	r.Decide(sawDial && sawAccept, "C38.R2", cname+" start per role", p.Pos(site.Pos()),
+		"a start constant is selected on each edge of the role",
 		"the start value does not distinguish the two roles")
 }
 
 // c38RolePolarity finds, among the guards, a test of the role value and returns its truth.
-func c38RolePolarity(gs []kit.Guard, role ssa.Value) (bool, bool) {
+func c38RolePolarity(gs []kit.Guard, isRole func(ssa.Value) bool) (bool, bool) {
 	for _, g := range gs {
 		cond, pol := g.Cond, g.Polarity
 		for {
@@ -344,7 +549,7 @@ func c38RolePolarity(gs []kit.Guard, role ssa.Value) (bool, bool) {
 			}
 			break
 		}
-		if cond == role {
+		if isRole(cond) {
 			return pol, true
 		}
 	}
@@ -523,41 +728,46 @@ func (cx *c38Ctx) roles() {
 	classOf := func(f *ssa.Function) string { return classify(f, 0, map[*ssa.Function]bool{}) }
 
 	// ---- constructor call sites: the role argument
-	isDialerCall := func(v ssa.Value) (ssa.Value, bool) {
-		c, ok := v.(*ssa.Call)
-		if !ok || !c.Call.IsInvoke() || c.Call.Method.Name() != "IsDialer" {
-			return nil, false
-		}
-		it, ok := c.Call.Value.Type().Underlying().(*types.Interface)
-		if !ok || !types.Identical(it, peerConn) {
-			return nil, false
-		}
-		return c.Call.Value, true
-	}
-	sites := p.StaticCallers(cx.ctor)
-	r.Count("allocator_constructor_call_sites", len(sites))
-	r.Require(len(sites) >= 1, "floor: the allocator constructor has no call site")
 	ord := map[string]int{}
-	for _, site := range sites {
-		fn := site.Parent()
-		fname := kit.FuncName(fn)
-		ord[fname]++
-		key := fmt.Sprintf("%s constructs allocator #%d role", fname, ord[fname])
-		conn, ok := isDialerCall(kit.Arg(site, 0))
-		if ok {
-			// the connection asked is the one this owner wraps: a parameter, or the value stored in the owner
-			_, isParam := conn.(*ssa.Parameter)
-			if !isParam {
-				if f, _ := kit.LoadedField(conn); f != nil {
-					isParam = true // c.conn.IsDialer(): the owner's own transport connection field
+	nSites := 0
+	for _, ctor := range cx.ctors {
+		role := c38RoleParam(ctor)
+		if role == nil {
+			continue // the constructor reads the role itself; startOf judged how
+		}
+		ridx := -1
+		for i, q := range ctor.Params {
+			if ssa.Value(q) == role {
+				ridx = i
+			}
+		}
+		sites := p.StaticCallers(ctor)
+		nSites += len(sites)
+		r.Decide(len(sites) >= 1, "C38.R4", kit.FuncName(ctor)+" is called", p.Pos(ctor.Pos()),
+			"the allocator constructor has call sites",
+			"the allocator constructor is never called: the owner's allocator is never set up with the connection's role")
+		for _, site := range sites {
+			fn := site.Parent()
+			fname := kit.FuncName(fn)
+			ord[fname]++
+			key := fmt.Sprintf("%s constructs allocator #%d role", fname, ord[fname])
+			ok := false
+			if ridx >= 0 && ridx < len(site.Common().Args) {
+				conn, isD := cx.isDialerOf(site.Common().Args[ridx])
+				if isD {
+					// the connection asked is the one this owner wraps: a parameter, or the value stored in the owner
+					_, ok = conn.(*ssa.Parameter)
+					if f, _ := kit.LoadedField(conn); f != nil {
+						ok = true // c.conn.IsDialer(): the owner's own transport connection field
+					}
 				}
 			}
-			ok = isParam
+			r.Decide(ok, "C38.R4", key, p.Pos(site.Pos()),
+				"the role handed to the allocator is IsDialer() of the wrapped transport connection",
+				"the role handed to the allocator constructor is not PeerConn.IsDialer() of the wrapped connection (negated, constant or unrelated): both ends can take the same parity and allocate the same identifiers")
 		}
-		r.Decide(ok, "C38.R4", key, p.Pos(site.Pos()),
-			"the role handed to the allocator is IsDialer() of the wrapped transport connection",
-			"the role handed to the allocator constructor is not PeerConn.IsDialer() of the wrapped connection (negated, constant or unrelated): both ends can take the same parity and allocate the same identifiers")
 	}
+	r.Count("allocator_constructor_call_sites", nSites)
 
 	// ---- PeerConn implementations
 	impls := cx.implementers(peerConn)
@@ -758,41 +968,71 @@ func (cx *c38Ctx) ownership() {
 		return false
 	}
 	r.Count("allocator_owner_fields", len(owners))
-	r.Require(len(owners) >= 1, "floor: no struct field of type *StreamIDAllocator (no owner of an allocator)")
+	isCtor := func(f *ssa.Function) bool {
+		for _, c := range cx.ctors {
+			if c == f {
+				return true
+			}
+		}
+		// a function that only returns freshly allocated allocators makes one, too
+		if f == nil || f.Blocks == nil || f.Signature.Results().Len() != 1 || !c38SameNamed(f.Signature.Results().At(0).Type(), cx.alloc) {
+			return false
+		}
+		n := 0
+		for _, ret := range kit.Returns(f) {
+			if ret.Block() == f.Recover {
+				continue
+			}
+			for _, l := range kit.PhiLeaves(kit.ReturnResult(ret, 0)) {
+				if _, fresh := l.(*ssa.Alloc); !fresh {
+					return false
+				}
+				n++
+			}
+		}
+		return n > 0
+	}
+	if len(cx.chain) == 0 {
+		// the counter lives in the connection object itself: nothing to own or replace
+		r.OK("C38.R5", "counter embedded in "+cx.alloc.Obj().Name(), p.Pos(cx.counter.Pos()), "the identifier counter is a field of the connection object; there is no separate allocator to create, share or replace")
+		return
+	}
 
 	// every constructor result goes into exactly one owner field of a fresh object
 	ord := map[string]int{}
-	for _, site := range p.StaticCallers(cx.ctor) {
-		fn := site.Parent()
-		fname := kit.FuncName(fn)
-		ord[fname]++
-		key := fmt.Sprintf("%s constructs allocator #%d ownership", fname, ord[fname])
-		call, isCall := site.(*ssa.Call)
-		ok := isCall
-		nStores := 0
-		if isCall && call.Referrers() != nil {
-			for _, ref := range *call.Referrers() {
-				switch x := ref.(type) {
-				case *ssa.Store:
-					fa, isFA := x.Addr.(*ssa.FieldAddr)
-					fresh := false
-					if isFA {
-						_, fresh = fa.X.(*ssa.Alloc)
-					}
-					if x.Val == ssa.Value(call) && isFA && fresh && isOwner(kit.FieldOfAddr(fa)) {
-						nStores++
-					} else {
+	for _, ctor := range cx.ctors {
+		for _, site := range p.StaticCallers(ctor) {
+			fn := site.Parent()
+			fname := kit.FuncName(fn)
+			ord[fname]++
+			key := fmt.Sprintf("%s constructs allocator #%d ownership", fname, ord[fname])
+			call, isCall := site.(*ssa.Call)
+			ok := isCall
+			nStores := 0
+			if isCall && call.Referrers() != nil {
+				for _, ref := range *call.Referrers() {
+					switch x := ref.(type) {
+					case *ssa.Store:
+						fa, isFA := x.Addr.(*ssa.FieldAddr)
+						fresh := false
+						if isFA {
+							_, fresh = fa.X.(*ssa.Alloc)
+						}
+						if x.Val == ssa.Value(call) && isFA && fresh && isOwner(kit.FieldOfAddr(fa)) {
+							nStores++
+						} else {
+							ok = false
+						}
+					case *ssa.DebugRef:
+					default:
 						ok = false
 					}
-				case *ssa.DebugRef:
-				default:
-					ok = false
 				}
 			}
+			r.Decide(ok && nStores == 1, "C38.R5", key, p.Pos(site.Pos()),
+				"the new allocator is stored once into an owner field of a freshly allocated object and used for nothing else",
+				"a newly constructed allocator is not (only) stored into the owner field of a fresh connection object: identifiers drawn from a transient or shared second allocator repeat those of the connection's allocator")
 		}
-		r.Decide(ok && nStores == 1, "C38.R5", key, p.Pos(site.Pos()),
-			"the new allocator is stored once into an owner field of a freshly allocated object and used for nothing else",
-			"a newly constructed allocator is not (only) stored into the owner field of a fresh connection object: identifiers drawn from a transient or shared second allocator repeat those of the connection's allocator")
 	}
 	// owner fields are never replaced
 	for _, o := range owners {
@@ -802,7 +1042,7 @@ func (cx *c38Ctx) ownership() {
 			if acc.Kind == kit.FieldStore {
 				_, fresh := acc.Base.(*ssa.Alloc)
 				c, _, isCall := kit.ResultOf(acc.Val)
-				if fresh && isCall && kit.CalleeOf(c).Static == cx.ctor {
+				if fresh && isCall && isCtor(kit.CalleeOf(c).Static) {
 					continue
 				}
 			}
@@ -822,6 +1062,15 @@ func (cx *c38Ctx) ownership() {
 		ord["next "+fname]++
 		key := fmt.Sprintf("%s draws identifier #%d", fname, ord["next "+fname])
 		f, _ := kit.LoadedField(kit.Receiver(site))
+		if fa, ok := kit.Receiver(site).(*ssa.FieldAddr); ok && f == nil {
+			// allocator embedded by value in its owner
+			for _, cf := range cx.chain {
+				if kit.FieldOfAddr(fa) == cf {
+					f = cf
+					owners = append(owners, cf)
+				}
+			}
+		}
 		r.Decide(f != nil && isOwner(f), "C38.R5", key, p.Pos(site.Pos()),
 			"the identifier is drawn from the owner's allocator field",
 			"an identifier is drawn from an allocator that is not read from a connection's owner field: it is not the connection's single allocator")
